@@ -9,6 +9,7 @@ package main
 // R3 who-may-publish inventories (cas.Memory.content, file.Store.digestToPath,
 //    names under blobs/ in content/oci)
 // R4 error flow on the verifying / publishing calls
+// R5 visibility readers (Exists/Fetch answer positively only on evidence from the published state)
 
 import (
 	"fmt"
@@ -29,7 +30,9 @@ func init() {
 			"hands the source reader to nobody else and verifies against its caller's descriptor; ReadAll rejects negative sizes before allocating; FetchAll returns ReadAll of the fetched stream. " +
 			"(R2) in cas.Memory.Push, oci.Storage.Push (+ its ingest helper) and the file store (saveFile-role, push-role) the publication effect (LoadOrStore / Rename into blobs / digestToPath.Store / exists=true) " +
 			"is dominated by the success edge of the verification of the same descriptor, publishes the verified bytes/file under the key of that descriptor; wrappers forward the caller's descriptor unchanged. " +
-			"(R3) the writers of cas.Memory.content, file.Store.digestToPath and the creators of names under blobs/ are exactly the confirmed inventory, with verified keys. (R4) errors of the verifying and publishing calls surface. " +
+			"(R3) the writers of cas.Memory.content, file.Store.digestToPath and the creators of names under blobs/ are exactly the confirmed inventory, with verified keys. (R4) errors of the verifying and publishing calls surface, " +
+			"deferred code (closures or helpers) cannot clear a verification error and records a failed Close. (R5) Exists/Fetch of the built-in stores answer positively only on evidence from the published state for the same descriptor " +
+			"(content map hit, file at the blob path of its digest, digest->path entry behind the name gate) or by forwarding an inner store's answer. " +
 			"NOT decided (not applicable to static analysis): reader behaviours (chunking, zero-byte reads), hash correctness, racing good/bad pushes on one name, user-supplied stores, byte-level equality of fetched content.",
 		Run:     runC05,
 		Mutants: c05Mutants,
@@ -55,6 +58,7 @@ func runC05(c *Ctx) {
 	c05R2Wrappers(c)
 	c05R3(c)
 	c05R4(c)
+	c05R5(c)
 }
 
 // moduleFuncs: every source function of the repository (all packages).
@@ -1870,6 +1874,14 @@ func c05ClosureErrRecorded(cl *ssa.Function, call ssa.CallInstruction, handle ss
 }
 
 var c05Mutants = []Mutant{
+	// R5
+	{Name: "proxy-exists-or-instead-of-and", File: "internal/cas/proxy.go", Old: "\tif err == nil && exists {\n\t\treturn true, nil\n\t}", New: "\tif err == nil || exists {\n\t\treturn true, nil\n\t}", Expect: "C05.R5.visibility-readers|(*~/internal/cas.Proxy).Exists|"},
+	{Name: "oci-exists-true-for-missing-blob", File: "content/oci/readonlystorage.go", Old: "\t_, err = fs.Stat(s.fsys, path)\n\tif err != nil {\n\t\tif errors.Is(err, fs.ErrNotExist) {\n\t\t\treturn false, nil\n\t\t}\n\t\treturn false, err\n\t}", New: "\t_, err = fs.Stat(s.fsys, path)\n\tif err != nil && !errors.Is(err, fs.ErrNotExist) {\n\t\treturn false, err\n\t}", Expect: "C05.R5.visibility-readers|(*~/content/oci.ReadOnlyStorage).Exists|"},
+	{Name: "memory-exists-true-for-empty-content", File: "internal/cas/memory.go", Old: "\t_, exists := m.content.Load(key)\n\treturn exists, nil", New: "\t_, exists := m.content.Load(key)\n\tif !exists && key.Size == 0 {\n\t\texists = true\n\t}\n\treturn exists, nil", Expect: "C05.R5.visibility-readers|(*~/internal/cas.Memory).Exists|"},
+	{Name: "file-exists-falls-back-to-disk", File: "content/file/file.go", Old: "\tif name != \"\" && !s.nameExists(name) {\n\t\treturn false, nil\n\t}", New: "\tif name != \"\" && !s.nameExists(name) {\n\t\t_, err := os.Stat(s.absPath(name))\n\t\treturn err == nil, nil\n\t}", Expect: "C05.R5.visibility-readers|(*~/content/file.Store).Exists|"},
+	{Name: "file-fetch-falls-back-to-disk", File: "content/file/file.go", Old: "\tif name != \"\" && !s.nameExists(name) {\n\t\treturn nil, fmt.Errorf(\"%s: %s: %w\", name, target.MediaType, errdef.ErrNotFound)\n\t}", New: "\tif name != \"\" && !s.nameExists(name) {\n\t\tif fp, err := os.Open(s.absPath(name)); err == nil {\n\t\t\treturn fp, nil\n\t\t}\n\t\treturn nil, fmt.Errorf(\"%s: %s: %w\", name, target.MediaType, errdef.ErrNotFound)\n\t}", Expect: "C05.R5.visibility-readers|(*~/content/file.Store).Fetch|"},
+	{Name: "file-exists-ignores-name-status", File: "content/file/file.go", Old: "\tif name != \"\" && !s.nameExists(name) {\n\t\treturn false, nil\n\t}\n", New: "\t_ = name\n", Expect: "C05.R5.visibility-readers|(*~/content/file.Store).Exists|"},
+	{Name: "oci-fetch-serves-ingest-file", File: "content/oci/readonlystorage.go", Old: "\t\tif errors.Is(err, fs.ErrNotExist) {\n\t\t\treturn nil, fmt.Errorf(\"%s: %s: %w\", target.Digest, target.MediaType, errdef.ErrNotFound)\n\t\t}\n\t\treturn nil, err\n\t}\n\n\treturn fp, nil", New: "\t\tif errors.Is(err, fs.ErrNotExist) {\n\t\t\tif matches, _ := fs.Glob(s.fsys, \"ingest/\"+target.Digest.Encoded()+\"_*\"); len(matches) > 0 {\n\t\t\t\tif tmp, err := s.fsys.Open(matches[0]); err == nil {\n\t\t\t\t\treturn tmp, nil\n\t\t\t\t}\n\t\t\t}\n\t\t\treturn nil, fmt.Errorf(\"%s: %s: %w\", target.Digest, target.MediaType, errdef.ErrNotFound)\n\t\t}\n\t\treturn nil, err\n\t}\n\n\treturn fp, nil", Expect: "C05.R5.visibility-readers|(*~/content/oci.ReadOnlyStorage).Fetch|"},
 	// R1 verify-sound
 	{Name: "verify-early-by-one", File: "content/reader.go", Old: "\t\tif vr.base.N > 0 {\n\t\t\treturn errEarlyVerify", New: "\t\tif vr.base.N > 1 {\n\t\t\treturn errEarlyVerify", Expect: "C05.R1.verify-sound|(*~/content.VerifyReader).Verify|nil-implies-length-check"},
 	{Name: "read-records-early-eof", File: "content/reader.go", Old: "\t\tif err == io.EOF && vr.base.N > 0 {", New: "\t\tif err == io.EOF && vr.base.N > 1 {", Expect: "C05.R1.verify-sound|(*~/content.VerifyReader).Read|early-eof-not-recorded-as-eof"},
@@ -1913,4 +1925,186 @@ var c05Mutants = []Mutant{
 	{Name: "oci-chmod-error-ignored", File: "content/oci/storage.go", Old: "\tif err := os.Chmod(path, 0444); err != nil {\n\t\treturn \"\", fmt.Errorf(\"failed to make readonly: %w\", err)\n\t}", New: "\t_ = os.Chmod(path, 0444)", Expect: "C05.R4.error-flow|(*~/content/oci.Storage).ingest|os.Chmod"},
 	{Name: "oci-close-error-dropped", File: "content/oci/storage.go", Old: "\t\tif err := fp.Close(); err != nil && ingestErr == nil {\n\t\t\tingestErr = fmt.Errorf(\"failed to close ingest file: %w\", err)\n\t\t}", New: "\t\tfp.Close()", Expect: "C05.R4.error-flow|(*~/content/oci.Storage).ingest|deferred-close-error-recorded"},
 	{Name: "file-create-error-swallowed", File: "content/file/file.go", Old: "\tfp, err := os.Create(target)\n\tif err != nil {\n\t\treturn fmt.Errorf(\"failed to create file %s: %w\", target, err)\n\t}", New: "\tfp, err := os.Create(target)\n\tif err != nil {\n\t\treturn nil\n\t}", Expect: "C05.R4.error-flow|(*~/content/file.Store).pushFile|os.Create"},
+}
+
+// ---------------------------------------------------------------- R5: visibility readers
+
+// c05R5 decides the read side of "leaves Exists false and Fetch failing": a
+// built-in store answers Exists==true / hands out a reader only on evidence
+// from the published state (the content map, a file at the blob path of the
+// descriptor's digest, the digest->path map behind the name gate) or by
+// forwarding the answer of an inner store for the same descriptor.
+func c05R5(c *Ctx) {
+	const R = "C05.R5.visibility-readers"
+	c.Expect(R, 14)
+	type spec struct{ pkg, name string }
+	bp := c05BlobPathFns(c.P)
+	for _, x := range []spec{
+		{"internal/cas", "Memory.Exists"}, {"internal/cas", "Memory.Fetch"}, {"internal/cas", "Proxy.Exists"}, {"internal/cas", "Proxy.FetchCached"},
+		{"content/oci", "ReadOnlyStorage.Exists"}, {"content/oci", "ReadOnlyStorage.Fetch"},
+		{"content/oci", "Store.Exists"}, {"content/oci", "Store.Fetch"}, {"content/oci", "ReadOnlyStore.Exists"}, {"content/oci", "ReadOnlyStore.Fetch"},
+		{"content/memory", "Store.Exists"}, {"content/memory", "Store.Fetch"},
+		{"content/file", "Store.Exists"}, {"content/file", "Store.Fetch"},
+	} {
+		fn := c.P.Fn(x.pkg, x.name)
+		if fn == nil || len(fn.Blocks) == 0 {
+			c.LostAnchor(R, x.pkg+"."+x.name)
+			continue
+		}
+		tn := FnName(fn)
+		target := c07DescParam(fn)
+		if target == nil {
+			c.LostAnchor(R, tn+": descriptor parameter")
+			continue
+		}
+		isExists := fn.Signature.Results().Len() == 2 && types.Identical(fn.Signature.Results().At(0).Type(), types.Typ[types.Bool])
+		isTarget := func(v ssa.Value) bool { return c05DescSource(v) == target }
+		digestOfTarget := func(v ssa.Value) bool { return c05FieldOfParam(v, "Digest") == target }
+		// answers forwarded from an inner store / published map for the same descriptor
+		forward := map[ssa.Value]bool{}
+		var evidence [][][]Edge // alternatives; within one alternative every group must be passed by a self-made positive answer
+		for _, call := range Calls(fn, func(string) bool { return true }) {
+			if _, isDefer := call.(*ssa.Defer); isDefer {
+				continue
+			}
+			n := CalleeName(call)
+			args := call.Common().Args
+			switch {
+			case strings.HasSuffix(n, ").Exists") || strings.HasSuffix(n, ").Fetch") || strings.HasSuffix(n, ").FetchCached"):
+				same := false
+				for _, a := range args {
+					if c05IsOCIDescriptor(a.Type()) && isTarget(a) {
+						same = true
+					}
+				}
+				if same {
+					if r0 := ResultOf(call, 0); r0 != nil {
+						forward[r0] = true
+						// `if ok, err := inner.Exists(...); err == nil && ok { return true, nil }`
+						if te, _ := BoolTests(fn, Aliases(r0)); len(te) > 0 {
+							evidence = append(evidence, [][]Edge{te, c05NilEdgesOf(call)})
+						}
+					}
+				}
+			case n == "(*sync.Map).Load":
+				okKey := c07IsKeyOf(args[1], func(v ssa.Value) bool { return c05ParamOf(v) == target }) || digestOfTarget(args[1])
+				published := c05IsFieldAddrOf(args[0], "~/internal/cas.Memory", "content") || c05IsFieldAddrOf(args[0], "~/content/file.Store", "digestToPath")
+				if okKey && published {
+					if okv := ResultOf(call, 1); okv != nil {
+						forward[okv] = true
+						te, _ := BoolTests(fn, Aliases(okv))
+						evidence = append(evidence, [][]Edge{te})
+					}
+				}
+			case n == "io/fs.Stat" || n == "(io/fs.FS).Open":
+				// a file at the blob path of the target's digest
+				p := args[len(args)-1]
+				okPath := false
+				for _, bc := range Calls(fn, func(string) bool { return true }) {
+					if g := StaticCallee(bc); g != nil && bp[g] && digestOfTarget(bc.Common().Args[0]) {
+						if r0 := ResultOf(bc, 0); r0 != nil && SameValue(p, r0) {
+							okPath = true
+						}
+					}
+				}
+				if okPath {
+					evidence = append(evidence, [][]Edge{c05NilEdgesOf(call)})
+					if r0 := ResultOf(call, 0); r0 != nil && n != "io/fs.Stat" {
+						forward[r0] = true
+					}
+				}
+			case n == "os.Open":
+				// the file recorded for the target's digest
+				for _, r := range Roots(args[0]) {
+					if ta, isTA := r.(*ssa.TypeAssert); isTA {
+						r = ta.X
+					}
+					if e, isE := r.(*ssa.Extract); isE && e.Index == 0 {
+						if lc, isC := e.Tuple.(*ssa.Call); isC && CalleeName(lc) == "(*sync.Map).Load" && c05IsFieldAddrOf(lc.Call.Args[0], "~/content/file.Store", "digestToPath") && digestOfTarget(lc.Call.Args[1]) {
+							if r0 := ResultOf(call, 0); r0 != nil {
+								forward[r0] = true
+							}
+						}
+					}
+				}
+			}
+		}
+		// cas.Memory.Fetch builds a reader over the loaded bytes: any value is fine behind the ok edge
+		// name gate of the file store
+		var gate []Edge
+		hasGate := false
+		for _, call := range Calls(fn, func(string) bool { return true }) {
+			if g := StaticCallee(call); g != nil && fnPkgPath(g) == pkgPath("content/file") && len(c05FieldUses([]*ssa.Function{g}, "~/content/file.nameStatus", "exists")) > 0 && call.Value() != nil {
+				hasGate = true
+				te, _ := BoolTests(fn, Aliases(call.Value()))
+				gate = append(gate, te...)
+				nameArg := call.Common().Args[len(call.Common().Args)-1]
+				eq, _ := c05EqEdges(fn, func(v ssa.Value) bool { return SameValue(v, nameArg) }, func(v ssa.Value) bool { s, ok := constString(v); return ok && s == "" })
+				gate = append(gate, eq...)
+			}
+		}
+		if x.pkg == "content/file" && !hasGate {
+			c.Violation(R, tn+"|positive-answer-has-evidence", fn.Pos(), "the file store no longer consults the name status: content of a name whose push failed or never happened is reported as present")
+			continue
+		}
+		ok, detail := true, "every positive answer is evidence from the published state for this descriptor or the forwarded answer of an inner store"
+		errIdx := ErrResultIndex(fn.Signature)
+		for _, r := range Returns(fn) {
+			if !ReachableFromEntry(r) {
+				continue
+			}
+			// refusals need no evidence
+			refusal := errIdx >= 0
+			if errIdx >= 0 {
+				for _, ev := range Roots(r.Results[errIdx]) {
+					if ErrNilStatus(ev, 0) != NonNil {
+						refusal = false
+					}
+				}
+			}
+			if refusal {
+				continue
+			}
+			positive := false
+			for _, v := range Roots(r.Results[0]) {
+				v = strip(v)
+				if k, isK := v.(*ssa.Const); isK {
+					if isExists && k.Value != nil && k.Value.String() == "false" {
+						continue
+					}
+					if !isExists && k.Value == nil {
+						continue
+					}
+				}
+				positive = true
+				if forward[v] {
+					continue
+				}
+				// self-made positive answer: needs every evidence group on the path
+				if len(evidence) == 0 {
+					ok, detail = false, "the return at "+c.P.Pos(r.Pos())+" answers positively ("+describe(v)+") without any evidence from the published state"
+					continue
+				}
+				justified := false
+				for _, alt := range evidence {
+					all := true
+					for _, grp := range alt {
+						if !MustPass(r, newCut().Edges(grp...)) {
+							all = false
+						}
+					}
+					if all {
+						justified = true
+					}
+				}
+				if !justified {
+					ok, detail = false, "the return at "+c.P.Pos(r.Pos())+" answers positively ("+describe(v)+") on a path that did not find the content in the published state"
+				}
+			}
+			if positive && hasGate && !MustPass(r, newCut().Edges(gate...)) {
+				ok, detail = false, "the return at "+c.P.Pos(r.Pos())+" answers positively for a named descriptor without the name being marked as existing (a failed push leaves a file on disk that must stay invisible)"
+			}
+		}
+		c.Check(R, tn+"|positive-answer-has-evidence", fn.Pos(), ok, detail)
+	}
 }
